@@ -28,7 +28,7 @@ def run(ctx):
     ctx.floor('C15.raised', 100)
     ctx.floor('C15.downgraded_runs', 1000)
     import copy
-    sub = {'quick': 12, 'thorough': 150}[ctx.tier]
+    sub = {'quick': 9, 'thorough': 150}[ctx.tier]
     saved = ctx.deadline
     import time
     def slot(k):
@@ -37,6 +37,18 @@ def run(ctx):
     slot(1); w_alg.drive_embed(ctx, ctx.tier)
     slot(2); w_alg.drive_mask(ctx, ctx.tier, dup=True, include_posonly=True)
     slot(3); w_alg.drive_forwards(ctx, ctx.tier)
+    # the same operations over annotated signatures, eager and postponed (PEP 563); a share of the postponed
+    # annotations name things that do not exist at run time (TYPE_CHECKING-only imports): nothing in the algebra
+    # needs their value, so nothing but ValueError may escape
+    ctx.floor('C15.annotated_inputs', 300)
+    sub_saved = sub
+    sub = max(3, sub // 4)
+    for future, anns in ((False, ('1', '2', '3')), (True, ('NotDefinedAtRunTime', 'AlsoMissing', '1'))):
+        pool = w_alg.MetaPool(ctx.rng('c15-meta-%s' % future), anns=anns, future=future)
+        slot(5); w_alg.drive_merge(ctx, 'quick', pool=pool)
+        slot(6); w_alg.drive_embed(ctx, 'quick', pool=pool)
+        slot(7); w_alg.drive_forwards(ctx, 'quick', pool=pool)
+    sub = sub_saved
     # retrieval side: generated forwarding programs (a share of them written so that the
     # declaration of the call fails in mask or embed, or several calls do not merge)
     ctx.floor('C15.retrievals_with_algebra_failure_inside', 30)
